@@ -40,6 +40,9 @@ func cmdSelftest(argv []string) int {
 		patches = append(patches, seeded...)
 		sort.Strings(patches)
 		for _, p := range patches {
+			if len(argv) > 1 && !strings.Contains(p, argv[1]) {
+				continue
+			}
 			killed, detail := runMutant("/repo", p, id, pc)
 			status := "KILLED  "
 			if !killed {
@@ -110,6 +113,20 @@ func runMutant(repo, patch, id string, pc PropConfig) (bool, string) {
 	defer os.RemoveAll(qdir)
 	opt := solveOpts{dir: qdir, order: []string{"z3-new", "cvc5"}, timeoutS: 20, jobs: 5}
 	var failed []string
+	vd := verifDir()
+	var flows []FlowCheck
+	_ = loadJSON(filepath.Join(vd, "flowchecks.json"), &flows)
+	for _, fc := range flows {
+		if fc.Property != id {
+			continue
+		}
+		if fr := runFlowCheck(P, fc); !fr.ok {
+			failed = append(failed, "flow#"+fc.Name)
+		}
+	}
+	if len(failed) > 0 {
+		return true, "fails: " + strings.Join(failed, ", ")
+	}
 	for _, n := range P.HarnessNames() {
 		h := P.harness[n]
 		serves := false
@@ -133,7 +150,7 @@ func runMutant(repo, patch, id string, pc PropConfig) (bool, string) {
 				}
 				continue
 			}
-			if o.Result != "unsat" {
+			if o.Result != "unsat" && !isSpecifiedNotProved(vd, id, o.Name) {
 				failed = append(failed, o.Name+"["+o.Result+"]")
 			}
 		}
